@@ -7,6 +7,7 @@
 -/
 import Stevia.Proofs.TreeState
 import Stevia.Proofs.HashSetState
+import Stevia.Proofs.BytesRT
 
 namespace Stevia.C04
 open Stevia
@@ -39,6 +40,21 @@ theorem tree_reopen_idempotent (c : TreeCfg) (s : Tree α β) (h : Tree.Reach c 
     (s.openMut c).openMut c = s.openMut c := by
   have := Tree.openMut_cap (Tree.reach_inv h)
   exact Tree.openMut_id c _ (by omega)
+
+/-- At byte level, for both index widths and any key/value scalars: parsing the bytes of a reachable
+    state's buffer and decoding them gives back the state — the state is a function of the bytes alone. -/
+theorem tree_reopen_from_bytes (c : TreeCfg) (f : TreeFmt) (hm : f.Matches c) (hf : f.Ok) (s : Tree Int Nat)
+    (h : Tree.Reach c s) (hkv : f.kvOk s.root) :
+    (f.ofBytes (f.toBytes (s.image c 0 0))).bind (fun img => img.decode c 0 0) = some s :=
+  Tree.bytes_roundtrip c f hm hf s h hkv
+
+theorem hset_reopen_from_bytes (hash : Nat → Nat) (f : HFmt) (hf : f.Ok) (s : HSet Nat) (h : s.Inv hash)
+    (hv : f.valsOk s) : (f.ofBytes (f.toBytes (s.image 0))).bind (fun img => img.decode 0) = some s :=
+  HSet.bytes_roundtrip hash f hf s h hv
+
+theorem aset_reopen_from_bytes (f : AFmt) (hp : 0 < f.pw) (hv : 0 < f.vsz) (s : ASet Nat)
+    (h : s.Inv f.keyOf f.prefixMax) (hvals : ∀ v ∈ s.vals, v < 256 ^ f.vsz) :
+    f.ofBytes (f.toBytes s) = some s := ASet.bytes_roundtrip f hp hv s h hvals
 
 /-- Hash set: the layout of a well-formed state decodes to it (opening never writes: the model
     has no open operation at all for hash and array sets). -/
